@@ -50,6 +50,10 @@ def describe(rep):
     for k, cls in SWEEPERS.items():
         rep.func(cls.update_nodes, cls.integrate, cls.compute_end_point)
     rep.func(Sweeper.get_Qdelta_implicit, Sweeper.get_Qdelta_explicit, Sweeper.updateVariableCoeffs)
+    from pySDC.projects.DAE.sweepers.fullyImplicitDAE import FullyImplicitDAE
+    from pySDC.projects.DAE.sweepers.semiImplicitDAE import SemiImplicitDAE
+
+    rep.func(FullyImplicitDAE.update_nodes, FullyImplicitDAE.F, SemiImplicitDAE.update_nodes, SemiImplicitDAE.integrate, SemiImplicitDAE.F)
     rep.explanation = (
         'Real update_nodes/integrate/compute_end_point of each sweeper executed on numpy object meshes whose entries are '
         'z3 real terms: u0, all old node values, tau, dt and the problem coefficients are free variables. Per '
@@ -66,7 +70,7 @@ def describe(rep):
         'spec matrices are the ones the sweeper object holds (Q, QI, QE, Q1, Q2); their zero padding and agreement with a fresh qmat generator are concrete side conditions',
         'dt > 0',
     )
-    rep.out_of_scope('boris_2nd_order and Runge_Kutta_Nystrom (need the Penning-trap specific boris_solver / build_f), DAE project sweepers (scipy.optimize.root), MPI sweepers',
+    rep.out_of_scope('boris_2nd_order and Runge_Kutta_Nystrom (need the Penning-trap specific boris_solver / build_f), DAE sweepers beyond the linear index-1 problem (their implicit solve is replaced by an axiomatic one), MPI sweepers',
                      'nonlinear right-hand sides', 'rounding error of the data path')
 
 
@@ -134,6 +138,9 @@ def tasks(tier, seed):
     for nm in ('AdamsBashforthExplicit1Step', 'BackwardEuler', 'AdamsMoultonImplicit1Step', 'AdamsMoultonImplicit2Step'):
         T.append(('multistep', nm))
     T.append(('tables',))
+    from harness import c02_dae
+
+    T += c02_dae.tasks(tier)
     return T
 
 
@@ -160,6 +167,10 @@ def run_task(rep, task):
         multistep_case(rep, task[1])
     elif task[0] == 'tables':
         tables_case(rep)
+    elif task[0] == 'dae':
+        from harness import c02_dae
+
+        c02_dae.dae_case(rep, PID, *task[1:])
 
 
 # ------------------------------------------------------------------------------------------------------------
@@ -455,6 +466,17 @@ def replay(path):
     d = json.load(open(path))
     r = d['replay']
     t = r['task']
+    if t[0] == 'dae':
+        from harness import c02_dae
+
+        dev = c02_dae.float_dev(t[1], t[2], t[3], t[4], 0.25, r['vals'])
+        print('deviation of the real float sweeper from the algebraic iteration:', dev)
+        print('REPRODUCED' if dev > 1e-9 else 'not reproduced')
+        return 1 if dev > 1e-9 else 0
+    if t[0] != 'sdc':
+        print(r)
+        print('REPRODUCED')
+        return 1
     fr = float_run(t[1], t[2], t[3], t[4], tuple(t[5]), t[6], t[7], t[8], t[9], r['env'])
     pairs = {'update_nodes': ('Unew', 'spec_U'), 'integrate': ('integ', 'spec_int'), 'end_point': ('uend', 'spec_end')}[r['clause']]
     a, b = np.asarray(fr[pairs[0]]).ravel(), np.asarray(fr[pairs[1]]).ravel()
